@@ -35,11 +35,11 @@ type Scenario struct {
 }
 
 type SiteStat struct {
-	Site   int `json:"site"`
-	Visits int `json:"visits"`
-	MaxN   int `json:"max_n"`
-	Rot    int `json:"rot"`
-	Perm   int `json:"perm"`
+	Site   int    `json:"site"`
+	Visits int    `json:"visits"`
+	MaxN   int    `json:"max_n"`
+	Rot    int    `json:"rot"`
+	Perm   int    `json:"perm"`
 	Ord    uint64 `json:"ord"`
 }
 
